@@ -1,7 +1,8 @@
 """Configuration space of C14: (creation configuration, reopening configuration) pairs."""
 
 STORE_ALGOS = ["MD5", "SHA-1", "SHA-256", "SHA-384", "SHA-512"]
-UNSUPPORTED_STORE_ALGOS = ["sha256", "SHA256", "SHA-224", "SHA3-256", "md5", "SHA_256", "BLAKE2B", "SHA-1 ", ""]
+UNSUPPORTED_STORE_ALGOS = ["sha256", "SHA256", "SHA-224", "SHA3-256", "md5", "SHA_256", "BLAKE2B", "SHA-1 ", "",
+                           "sha-256", "Sha-512", "sha-1", "Md5", "sha-384", "SHA-256\n", " MD5", "SHA-2560", "SHA"]
 NAMESPACES = ["https://ns.dataone.org/service/types/v2.0#", "urn:ns:sysmeta", "yes", "123", "a: b", "#x", "null", "~"]
 
 
